@@ -261,8 +261,6 @@ def c05_forms(rng, n):
         mi = rng.choice([0, 5, 7, 30, 45, 59, rng.randint(0, 59)])
         h12 = h % 12 or 12
         ap = "am" if h < 12 else "pm"
-        if "{h12}" in ck and h in (0, 12):
-            ck = " {h}:{mi:02d}"      # 12 am/pm is C06's business
         ds = tpl.format(d=d, m=m, y=y, yy=y % 100, M=M, o=_ord_en(d))
         cs = ck.format(h=h, mi=mi, h12=h12, ap=ap).strip()
         order = "date-clock"
